@@ -33,6 +33,8 @@ type Result struct {
 	Info        map[string]int // harness counters (requests granted, ops done, ...)
 	Sample      []string       // harness-level description of the case
 	States      []uint64       // abstract state hashes seen (harness-defined)
+	Executions  int            // number of simulated executions this result stands for (0 = 1; enumerating harnesses)
+	ExtraHashes []uint64       // schedule/case hashes of the additional executions
 }
 
 var (
